@@ -213,6 +213,19 @@ fn run_thread(tid: usize, ops: &[Op], mut h: Handles, sh: &Shared, collect: bool
                     sh.rec(tid, HOp::Read, inv, Res::Val(v));
                 }
             }
+            Op::SubReadHold => {
+                if let Some((_, s)) = h.subs.last() {
+                    let g = s.read();
+                    let a = *g;
+                    shuttle::thread::yield_now();
+                    let b = *g;
+                    drop(g);
+                    if a != b {
+                        panic!("{ORACLE} guard_exclusion: the value changed from {a} to {b} while a subscriber's read guard was alive");
+                    }
+                    sh.rec(tid, HOp::Read, inv, Res::Val(a));
+                }
+            }
             Op::SubNextNow => {
                 if let Some((id, s)) = h.subs.last_mut() {
                     let v = s.next_now();
